@@ -1142,7 +1142,49 @@ class ModelMixin:
                 (isinstance(v, ClassRef) and any(isinstance(self.external_name(b), ExtClassRef) for b in self.repo.external_bases(v.cinfo) if isinstance(b, str)))
         return True
 
+    def modifies_keys(self, c, ctx, st):
+        """declared locations of contract c as snapshot keys of state st"""
+        out = []
+        if c.modifies is None:
+            return out
+        for loc in c.modifies(ctx):
+            if loc[0] in ('f', 'm'):
+                ref = loc[1]
+                if isinstance(ref, Opt):
+                    ref = ref.val
+                if not isinstance(ref, Ref):
+                    continue
+                out.append((loc[0], ref.oid, loc[2]))
+            elif loc[0] == 'g':
+                out.append(tuple(loc))
+            else:
+                raise EngineError(f'modifies of {c.target}: unknown location {loc!r}')
+        return out
+
+    def havoc_modifies(self, c, ctx, st):
+        keys = self.modifies_keys(c, ctx, st)
+        if not keys:
+            return
+        snap = self.heap_snapshot(st)
+        rest = {}
+        for k in keys:
+            if k not in snap:
+                continue
+            if k[0] == 'f':
+                h = st.heap[k[1]]
+                ft = None
+                if h.kind == 'obj' and h.cls is not None:
+                    for ci in self.repo.mro(h.cls):
+                        ft = self.registry.fields.get(ci.qualname, {}).get(k[2], ft) if ft is None else ft
+                if ft is not None:
+                    h.fields[k[2]] = self.make_symbolic(ft, f'mod_{k[2]}', st)
+                    continue
+            rest[k] = snap[k]
+        self.apply_extra_havoc(st, rest)
+
     def apply_contract(self, c, finfo, self_val, args, kwargs, st, line):
+        if c.top_level:
+            raise EngineError(f'contract of {c.target} is declared top_level but is used at a call site (line {line})')
         env = self.bind_params(finfo.node, self_val if not isinstance(self_val, ClassRef) else None, args, kwargs, st, finfo)
         self.resolve_defaults(env, st, finfo.module)
         self.used_contracts.add(c.target)
@@ -1174,19 +1216,21 @@ class ModelMixin:
                 if not self.feasible(s2):
                     continue
             exc = ExcV(ecls, (), tag=fresh_name('exc'))
+            self.havoc_modifies(c, ctx2, s2)
             eff = c.raise_effects.get(ecls)
             if eff is not None:
                 exc = eff(ctx2, s2, exc) or exc
             if c.events:
                 s2.trace.append(Event('call', finfo.qualname, self_val, args, kwargs, None, line, s2.held,
-                                      extra={'raised': exc, 'env': env}))
+                                      extra={'raised': exc, 'env': env, 'pre': pre}))
             out.append(rs(exc, s2))
         # normal exit
         result = None
         ctxn = CallCtx(self, finfo, env, self_val, pre, st, None, None, mark)
         if c.events:
-            ev = Event('call', finfo.qualname, self_val, args, kwargs, None, line, st.held, extra={'env': env})
+            ev = Event('call', finfo.qualname, self_val, args, kwargs, None, line, st.held, extra={'env': env, 'pre': pre})
             st.trace.append(ev)
+        self.havoc_modifies(c, ctxn, st)
         if c.effects is not None:
             result = c.effects(ctxn, st)
         elif c.returns is not None:
